@@ -1024,23 +1024,95 @@ theorem vis_cleanup_sub (g : Graph) (s : State) (n c : Nat) (h : c ∈ ((vis g s
 
 /-! ## the moves of a `.cont` iteration -/
 
-/-- what a `.cont` iteration of worker `w` does to its path and to the dropped edges -/
+/-- how often nodes of class `c` were picked as a child (the `picked_by_setup_nodes` counter of the class) -/
+def picks (s : State) (c : Nat) : Nat := regTotal (s.cr c).pickedBySetup
+
+theorem regTotal_regAdd (r : Reg) (k : Nat × Nat) : regTotal (regAdd r k) = regTotal r + 1 := by
+  unfold regTotal
+  induction r with
+  | nil => simp [regAdd]
+  | cons e r ih =>
+    unfold regAdd
+    split
+    · simp only [List.map_cons, List.sum_cons]; omega
+    · simp only [List.map_cons, List.sum_cons, ih]; omega
+
+theorem picks_of_regs (s s' : State) (h : s'.regs = s.regs) (c : Nat) : picks s' c = picks s c := by
+  unfold picks State.cr; rw [h]
+
+theorem picks_setWd (s : State) (v : Nat) (f : WorkerD → WorkerD) (c : Nat) : picks (s.setWd v f) c = picks s c := rfl
+
+theorem picks_setCr_keep (s : State) (c0 : Nat) (f : ClassRegs → ClassRegs)
+    (hf : ∀ r, (f r).pickedBySetup = r.pickedBySetup) (c : Nat) : picks (s.setCr c0 f) c = picks s c := by
+  unfold picks
+  rcases cr_setCr_cases s c0 f c with h | ⟨_, h⟩
+  · rw [h]
+  · rw [h, hf]
+
+theorem picks_setCr_dS (s : State) (c0 : Nat) (X : ClassRegs → Reg) (c : Nat) :
+    picks (s.setCr c0 (fun r => { r with droppedSetup := X r })) c = picks s c :=
+  picks_setCr_keep s c0 (fun r => { r with droppedSetup := X r }) (fun _ => rfl) c
+
+theorem picks_setCr_dC (s : State) (c0 : Nat) (X : ClassRegs → Reg) (c : Nat) :
+    picks (s.setCr c0 (fun r => { r with droppedCleanup := X r })) c = picks s c :=
+  picks_setCr_keep s c0 (fun r => { r with droppedCleanup := X r }) (fun _ => rfl) c
+
+theorem picks_setCr_pC (s : State) (c0 : Nat) (X : ClassRegs → Reg) (c : Nat) :
+    picks (s.setCr c0 (fun r => { r with pickedByCleanup := X r })) c = picks s c :=
+  picks_setCr_keep s c0 (fun r => { r with pickedByCleanup := X r }) (fun _ => rfl) c
+
+theorem picks_setCr_pick (s : State) (c0 : Nat) (k : Nat × Nat) (h : c0 < s.regs.length) (c : Nat) :
+    picks (s.setCr c0 (fun r => { r with pickedBySetup := regAdd r.pickedBySetup k })) c =
+      picks s c + (if c = c0 then 1 else 0) := by
+  unfold picks
+  by_cases hc : c = c0
+  · subst hc
+    rw [cr_setCr_eq s c _ h]
+    simp only [if_true]
+    exact regTotal_regAdd _ _
+  · simp only [hc, if_false, Nat.add_zero]
+    rcases cr_setCr_cases s c0 (fun r => { r with pickedBySetup := regAdd r.pickedBySetup k }) c with h1 | ⟨h1, _⟩
+    · rw [h1]
+    · exact absurd h1 hc
+
+theorem picks_dropChildren (g : Graph) (next w : Nat) (l : List (Nat × List String)) (s : State) (c : Nat) :
+    picks (l.foldl (fun s (p, _) => dropChild g s p next w) s) c = picks s c := by
+  induction l generalizing s with
+  | nil => rfl
+  | cons a r ih =>
+    simp only [List.foldl_cons]
+    rw [ih]
+    unfold dropChild
+    exact picks_setCr_dC s _ _ c
+
+/-- what a `.cont` iteration of worker `w` does to its path, to the dropped edges and to the pick counters -/
 inductive Move (g : Graph) (w : Nat) (s s' : State) : Prop
   | pushUp (last c : Nat) :
       (s.wd w).path.getLast? = some last → (s'.wd w).path = (s.wd w).path ++ [c] →
       c ∈ (g.node last).setup.map (·.1) → dropped s w (true, (g.node last).cls, (g.node c).cls) = false →
-      (∀ k, dropped s' w k = dropped s w k) → relevant g w c = true → Move g w s s'
+      (∀ k, dropped s' w k = dropped s w k) → relevant g w c = true →
+      (∀ c', picks s' c' = picks s c') → Move g w s s'
   | pushDown (last c : Nat) :
       (s.wd w).path.getLast? = some last → (s'.wd w).path = (s.wd w).path ++ [c] →
       c ∈ (g.node last).cleanup.map (·.1) → dropped s w (false, (g.node last).cls, (g.node c).cls) = false →
       ((s.wd w).path.length = 1 ∨ isUp g ((s.wd w).path.getD ((s.wd w).path.length - 2) 0) last = false) →
-      (∀ k, dropped s' w k = dropped s w k) → relevant g w c = true → Move g w s s'
+      (∀ k, dropped s' w k = dropped s w k) → relevant g w c = true →
+      (∀ c', picks s' c' = picks s c' + (if c' = (g.node c).cls then 1 else 0)) → Move g w s s'
   | pop (next : Nat) :
       (s.wd w).path.getLast? = some next → 2 ≤ (s.wd w).path.length → (s'.wd w).path = (s.wd w).path.dropLast →
       (∀ k, dropped s w k = true → dropped s' w k = true) →
       dropped s' w (posKey g ((s.wd w).path.getD ((s.wd w).path.length - 2) 0) next) = true →
       (∀ k, dropped s' w k = true → dropped s w k = true ∨
-        (k.1 = isUp g ((s.wd w).path.getD ((s.wd w).path.length - 2) 0) next ∧ k.2.2 = (g.node next).cls)) → Move g w s s'
+        (k.1 = isUp g ((s.wd w).path.getD ((s.wd w).path.length - 2) 0) next ∧ k.2.2 = (g.node next).cls)) →
+      (∀ c', picks s' c' = picks s c') → Move g w s s'
+
+/-- the "postpone the cleanup" iteration: back to the root, nothing dropped, nothing picked -/
+structure Jump (g : Graph) (w : Nat) (s s' : State) : Prop where
+  len : 2 ≤ (s.wd w).path.length
+  flag : (s.wd w).unexplored = true
+  path : (s'.wd w).path = [g.root]
+  dropped : ∀ k, dropped s' w k = dropped s w k
+  picks : ∀ c, picks s' c = picks s c
 
 theorem isUp_parent (g : Graph) (hsym : EdgeSym g) (last c : Nat) (hc : c ∈ (g.node last).setup.map (·.1)) :
     isUp g last c = true := by
@@ -1061,17 +1133,17 @@ theorem isUp_child (g : Graph) (d : Nat → Nat) (hr : Ranked g d) (hsym : EdgeS
 theorem move_dec (g : Graph) (d : Nat → Nat) (hr : Ranked g d) (hsym : EdgeSym g) (w : Nat) (s s' : State)
     (hwalk : Walk g d (s.wd w).path) (m : Move g w s s') : phi g s' w < phi g s w ∧ Walk g d (s'.wd w).path := by
   cases m with
-  | pushUp last c hl hp hc hnd hD _ =>
+  | pushUp last c hl hp hc hnd hD _ _ =>
     have hk : posKey g last c = (true, (g.node last).cls, (g.node c).cls) := by
       unfold posKey; rw [isUp_parent g hsym last c hc]
     refine ⟨phi_push g d hr s s' w last c hwalk hl hp hD (by rw [hk]; exact key_setup_mem g last c hc) (by rw [hk]; exact hnd), ?_⟩
     rw [hp]; exact walk_pushUp g d hr hsym _ last c hwalk hl hc
-  | pushDown last c hl hp hc hnd hmode hD _ =>
+  | pushDown last c hl hp hc hnd hmode hD _ _ =>
     have hk : posKey g last c = (false, (g.node last).cls, (g.node c).cls) := by
       unfold posKey; rw [isUp_child g d hr hsym last c hc]
     refine ⟨phi_push g d hr s s' w last c hwalk hl hp hD (by rw [hk]; exact key_cleanup_mem g last c hc) (by rw [hk]; exact hnd), ?_⟩
     rw [hp]; exact walk_pushDown g d hr hsym _ last c hwalk hl hc hmode
-  | pop next hl hlen hp hD hk _ =>
+  | pop next hl hlen hp hD hk _ _ =>
     refine ⟨phi_pop g s s' w next hl hlen hp hD hk, ?_⟩
     rw [hp]; exact walk_pop g d _ hwalk
 
@@ -1079,16 +1151,21 @@ theorem Move.of_fr {g : Graph} {w : Nat} {s sF s' : State} (a : Fr s sF) (m : Mo
   have hwd : sF.wd w = s.wd w := a.wd w
   have hdr : ∀ k, dropped sF w k = dropped s w k := fun k => dropped_of_regs s sF a.regs w k
   cases m with
-  | pushUp last c hl hp hc hnd hD hrel =>
+  | pushUp last c hl hp hc hnd hD hrel hpk =>
     rw [hwd] at hl hp; rw [hdr] at hnd
-    exact .pushUp last c hl hp hc hnd (fun k => by rw [hD, hdr]) hrel
-  | pushDown last c hl hp hc hnd hmode hD hrel =>
+    exact .pushUp last c hl hp hc hnd (fun k => by rw [hD, hdr]) hrel (fun c' => by rw [hpk, picks_of_regs s sF a.regs])
+  | pushDown last c hl hp hc hnd hmode hD hrel hpk =>
     rw [hwd] at hl hp hmode; rw [hdr] at hnd
     exact .pushDown last c hl hp hc hnd hmode (fun k => by rw [hD, hdr]) hrel
-  | pop next hl hlen hp hD hk hnew =>
+      (fun c' => by rw [hpk, picks_of_regs s sF a.regs])
+  | pop next hl hlen hp hD hk hnew hpk =>
     rw [hwd] at hl hp hlen hk hnew
     exact .pop next hl hlen hp (fun k hk' => hD k (by rw [hdr]; exact hk')) hk
-      (fun k hk' => by rw [← hdr]; exact hnew k hk')
+      (fun k hk' => by rw [← hdr]; exact hnew k hk') (fun c' => by rw [hpk, picks_of_regs s sF a.regs])
+
+theorem Jump.of_fr {g : Graph} {w : Nat} {s sF s' : State} (a : Fr s sF) (m : Jump g w sF s') : Jump g w s s' :=
+  ⟨by rw [← a.wd w]; exact m.len, by rw [← a.wd w]; exact m.flag, m.path,
+   fun k => by rw [m.dropped, dropped_of_regs s sF a.regs], fun c => by rw [m.picks, picks_of_regs s sF a.regs]⟩
 
 /-- every class of the graph has its registers -/
 def ClsOK (g : Graph) (s : State) : Prop := ∀ n, n < g.nodes.length → (g.node n).cls < s.regs.length
@@ -1138,12 +1215,14 @@ theorem afterTraverse_cont (g : Graph) (d : Nat → Nat) (hr : Ranked g d) (hsym
     (hw : w < sF.workers.length)
     (hlast : (sF.wd w).path.getLast? = some next) (hlen : 2 ≤ (sF.wd w).path.length)
     (hprev : prev = (sF.wd w).path.getD ((sF.wd w).path.length - 2) 0)
-    (hcls : ClsOK g sF) (hun : (sF.wd w).unexplored = false)
+    (hcls : ClsOK g sF)
     (hdir : (dir = .up ∧ prev ∈ ((vis g sv).node next).cleanup.map (·.1)) ∨
             (dir = .down ∧ prev ∈ ((vis g sv).node next).setup.map (·.1)))
     (s2 : State) (evs2 : List Event) (hrd : runDecision (vis g sv) sF next w = .ok (false, s2, evs2))
     (hc : (afterTraverse (vis g sv) sF w next prev dir).2.2 = .cont) :
-    Move g w sF (afterTraverse (vis g sv) sF w next prev dir).1 ∧ Keep sF (afterTraverse (vis g sv) sF w next prev dir).1 := by
+    (Move g w sF (afterTraverse (vis g sv) sF w next prev dir).1 ∨ Jump g w sF (afterTraverse (vis g sv) sF w next prev dir).1) ∧
+      Keep sF (afterTraverse (vis g sv) sF w next prev dir).1 := by
+  have hp2 : ∀ c', picks s2 c' = picks sF c' := fun c' => picks_of_regs sF s2 (fr_runDecision _ sF next w false s2 evs2 hrd).regs c'
   have f2 : Fr sF s2 := fr_runDecision _ sF next w false s2 evs2 hrd
   have hw2 : w < s2.workers.length := by rw [f2.workers]; exact hw
   have hd2 : ∀ k, dropped s2 w k = dropped sF w k := fun k => dropped_of_regs sF s2 f2.regs w k
@@ -1156,7 +1235,7 @@ theorem afterTraverse_cont (g : Graph) (d : Nat → Nat) (hr : Ranked g d) (hsym
     rw [afterTraverse_up_eq _ sF w next prev s2 evs2 hrd]
     dsimp only
     have hwX : w < (dropParent (vis g sv) s2 prev next w).workers.length := hw2
-    refine ⟨.pop next hlast hlen ?_ ?_ ?_ ?_, ?_⟩
+    refine ⟨Or.inl (.pop next hlast hlen ?_ ?_ ?_ ?_ ?_), ?_⟩
     · rw [path_popPath _ w hwX]
       show (s2.wd w).path.dropLast = _
       rw [f2.wd w]
@@ -1177,6 +1256,9 @@ theorem afterTraverse_cont (g : Graph) (d : Nat → Nat) (hr : Ranked g d) (hsym
       rcases dropped_dropParent_new _ s2 prev next w w k hk with h | h
       · left; rw [← hd2]; exact h
       · right; rw [← hprev, hup, ← vis_cls g sv]; exact h
+    · intro c'
+      unfold popPath dropParent
+      rw [picks_setWd, picks_setCr_dS, hp2]
     · unfold popPath dropParent
       exact f2.keep.trans ((keep_setCr s2 _ _).trans (keep_setWd _ w _))
   · subst hdir
@@ -1186,8 +1268,16 @@ theorem afterTraverse_cont (g : Graph) (d : Nat → Nat) (hr : Ranked g d) (hsym
     rw [afterTraverse_down_eq _ sF w next prev s2 evs2 hrd] at hc ⊢
     by_cases hcr : isCleanupReady (vis g sv) s2 next w = true
     · simp only [hcr, if_true] at hc ⊢
-      have hun2 : (s2.wd w).unexplored = false := by rw [f2.wd w]; exact hun
-      simp only [hun2, Bool.and_false, Bool.false_eq_true, if_false] at hc ⊢
+      by_cases hpp : (!((vis g sv).node next).flat && (s2.wd w).unexplored) = true
+      · -- the cleanup is postponed
+        simp only [hpp, if_true]
+        refine ⟨Or.inr ⟨hlen, ?_, ?_, fun k => ?_, fun c' => ?_⟩, f2.keep.trans (keep_setWd s2 w _)⟩
+        · simp only [Bool.and_eq_true] at hpp
+          rw [← f2.wd w]; exact hpp.2
+        · rw [wd_setWd_eq s2 w _ hw2, vis_root]
+        · rw [dropped_setWd, hd2]
+        · rw [picks_setWd, hp2]
+      simp only [hpp, Bool.false_eq_true, if_false] at hc ⊢
       generalize hsD : ((vis g sv).node next).setup.foldl (fun s (p, _) => dropChild (vis g sv) s p next w) s2 = sD at hc ⊢
       have kD : Keep s2 sD := by rw [← hsD]; exact keep_dropChildren _ next w _ s2
       have wdD : sD.wd w = s2.wd w := by rw [← hsD]; exact wd_dropChildren _ next w w _ s2
@@ -1198,7 +1288,7 @@ theorem afterTraverse_cont (g : Graph) (d : Nat → Nat) (hr : Ranked g d) (hsym
         simp only [hrev] at hc ⊢
         have f3 : Fr sD s3 := fr_reverseNode _ sD next w s3 evs3 hrev
         have hw3 : w < s3.workers.length := by rw [f3.workers, kD.workersLen]; exact hw2
-        refine ⟨.pop next hlast hlen ?_ ?_ ?_ ?_, ?_⟩
+        refine ⟨Or.inl (.pop next hlast hlen ?_ ?_ ?_ ?_ ?_), ?_⟩
         · rw [path_popPath _ w hw3, f3.wd w, wdD, f2.wd w]
         · intro k hk
           unfold popPath
@@ -1217,6 +1307,9 @@ theorem afterTraverse_cont (g : Graph) (d : Nat → Nat) (hr : Ranked g d) (hsym
           rcases dropped_dropChildren_new _ next w w k _ s2 hk with h | h
           · left; rw [← hd2]; exact h
           · right; rw [← hprev, hdown, ← vis_cls g sv]; exact h
+        · intro c'
+          unfold popPath
+          rw [picks_setWd, picks_of_regs sD s3 f3.regs, ← hsD, picks_dropChildren, hp2]
         · unfold popPath
           exact f2.keep.trans (kD.trans (f3.keep.trans (keep_setWd _ w _)))
     · simp only [hcr, Bool.false_eq_true, if_false] at hc ⊢
@@ -1227,8 +1320,10 @@ theorem afterTraverse_cont (g : Graph) (d : Nat → Nat) (hr : Ranked g d) (hsym
         simp only [hpk] at hc ⊢
         obtain ⟨hcm, hnd, hs3⟩ := pickChild_spec _ s2 next w c s3 hpk
         have hw3 : w < s3.workers.length := by rw [hs3]; exact hw2
-        refine ⟨.pushDown next c hlast ?_ (vis_cleanup_sub g sv next c hcm) ?_ (Or.inr (by rw [← hprev]; exact hdown)) ?_
-          (by rw [← vis_relevant g sv]; exact (pickChild_rel _ s2 next w c s3 hpk).1), ?_⟩
+        have hcN : c < g.nodes.length :=
+          lt_of_setup_mem g c next ((hsym next c).mpr (vis_cleanup_sub g sv next c hcm))
+        refine ⟨Or.inl (.pushDown next c hlast ?_ (vis_cleanup_sub g sv next c hcm) ?_ (Or.inr (by rw [← hprev]; exact hdown)) ?_
+          (by rw [← vis_relevant g sv]; exact (pickChild_rel _ s2 next w c s3 hpk).1) ?_), ?_⟩
         · rw [path_pushPath _ w c hw3, hs3]
           show (s2.wd w).path ++ [c] = _
           rw [f2.wd w]
@@ -1237,6 +1332,9 @@ theorem afterTraverse_cont (g : Graph) (d : Nat → Nat) (hr : Ranked g d) (hsym
         · intro k
           unfold pushPath
           rw [dropped_setWd, hs3, dropped_setCr_pickS, hd2]
+        · intro c'
+          unfold pushPath
+          rw [picks_setWd, hs3, picks_setCr_pick s2 _ _ (by rw [vis_cls, f2.regs]; exact hcls c hcN), hp2, vis_cls]
         · unfold pushPath
           rw [hs3]
           exact f2.keep.trans ((keep_setCr s2 _ _).trans (keep_setWd _ w _))
@@ -1249,11 +1347,12 @@ theorem traverseNode_cont (g : Graph) (d : Nat → Nat) (hr : Ranked g d) (hsym 
     (hw : w < s.workers.length)
     (hlast : (s.wd w).path.getLast? = some next) (hlen : 2 ≤ (s.wd w).path.length)
     (hprev : prev = (s.wd w).path.getD ((s.wd w).path.length - 2) 0)
-    (hcls : ClsOK g s) (hun : (s.wd w).unexplored = false)
+    (hcls : ClsOK g s)
     (hdir : (dir = .up ∧ prev ∈ ((vis g sv).node next).cleanup.map (·.1)) ∨
             (dir = .down ∧ prev ∈ ((vis g sv).node next).setup.map (·.1)))
     (hc : (traverseNode (vis g sv) s w next prev dir).2.2 = .cont) :
-    Move g w s (traverseNode (vis g sv) s w next prev dir).1 ∧ Keep s (traverseNode (vis g sv) s w next prev dir).1 := by
+    (Move g w s (traverseNode (vis g sv) s w next prev dir).1 ∨ Jump g w s (traverseNode (vis g sv) s w next prev dir).1) ∧
+      Keep s (traverseNode (vis g sv) s w next prev dir).1 := by
   unfold traverseNode at hc ⊢
   simp only [hocc, Bool.false_eq_true, if_false] at hc ⊢
   have fE : Fr s (s.setNd next (fun d => { d with started := some w })) := fr_setNd s next _
@@ -1281,8 +1380,8 @@ theorem traverseNode_cont (g : Graph) (d : Nat → Nat) (hr : Ranked g d) (hsym 
       have hwdF : (finishTraverse s1 next w).wd w = s.wd w := fF.wd w
       have := afterTraverse_cont g d hr hsym sv (finishTraverse s1 next w) w next prev dir
         (by rw [fF.workers]; exact hw) (by rw [hwdF]; exact hlast) (by rw [hwdF]; exact hlen) (by rw [hwdF]; exact hprev)
-        (fun n hn' => by rw [fF.regs]; exact hcls n hn') (by rw [hwdF]; exact hun) hdir s2 evs2 hrd2 hc
-      exact ⟨Move.of_fr fF this.1, fF.keep.trans this.2⟩
+        (fun n hn' => by rw [fF.regs]; exact hcls n hn') hdir s2 evs2 hrd2 hc
+      exact ⟨this.1.imp (Move.of_fr fF) (Jump.of_fr fF), fF.keep.trans this.2⟩
 
 
 theorem walk_top_lt (g : Graph) (d : Nat → Nat) (p : List Nat) (next : Nat) (h : Walk g d p) (hl : p.getLast? = some next)
@@ -1294,12 +1393,11 @@ theorem walk_top_lt (g : Graph) (d : Nat → Nat) (p : List Nat) (next : Nat) (h
   · exact lt_of_setup_mem g next _ h1
   · exact lt_of_cleanup_mem g next _ h1
 
-/-- one iteration that neither suspends nor ends the loop is a move -/
-theorem iter_cont (g : Graph) (d : Nat → Nat) (hr : Ranked g d) (hsym : EdgeSym g) (s : State) (w : Nat)
+/-- one iteration that neither suspends nor ends the loop is a move or the postponement jump -/
+theorem iter_cont2 (g : Graph) (d : Nat → Nat) (hr : Ranked g d) (hsym : EdgeSym g) (s : State) (w : Nat)
     (hnl : s.nodes.length = g.nodes.length) (hcls : ClsOK g s) (hwalk : Walk g d (s.wd w).path)
-    (hun : 2 ≤ (s.wd w).path.length → (s.wd w).unexplored = false)
     (hc : (iter (vis g s) s w).2.2 = .cont) :
-    Move g w s (iter (vis g s) s w).1 ∧ Keep s (iter (vis g s) s w).1 := by
+    (Move g w s (iter (vis g s) s w).1 ∨ Jump g w s (iter (vis g s) s w).1) ∧ Keep s (iter (vis g s) s w).1 := by
   unfold iter at hc ⊢
   dsimp only at hc ⊢
   by_cases hroot : isCleanupReady (vis g s) s (vis g s).root w = true
@@ -1323,13 +1421,18 @@ theorem iter_cont (g : Graph) (d : Nat → Nat) (hr : Ranked g d) (hsym : EdgeSy
           simp only [hpk] at hc ⊢
           obtain ⟨hcm, hnd, hs3⟩ := pickChild_spec _ s next w c s3 hpk
           have hw3 : w < s3.workers.length := by rw [hs3]; exact hw
-          refine ⟨.pushDown next c hl ?_ (vis_cleanup_sub g s next c hcm) ?_ (Or.inl hlen1') ?_
-            (by rw [← vis_relevant g s]; exact (pickChild_rel _ s next w c s3 hpk).1), ?_⟩
+          have hcN : c < g.nodes.length :=
+            lt_of_setup_mem g c next ((hsym next c).mpr (vis_cleanup_sub g s next c hcm))
+          refine ⟨Or.inl (.pushDown next c hl ?_ (vis_cleanup_sub g s next c hcm) ?_ (Or.inl hlen1') ?_
+            (by rw [← vis_relevant g s]; exact (pickChild_rel _ s next w c s3 hpk).1) ?_), ?_⟩
           · rw [path_pushPath _ w c hw3, hs3]; rfl
           · rw [vis_cls, vis_cls] at hnd; exact hnd
           · intro k
             unfold pushPath
             rw [dropped_setWd, hs3, dropped_setCr_pickS]
+          · intro c'
+            unfold pushPath
+            rw [picks_setWd, hs3, picks_setCr_pick s _ _ (by rw [vis_cls]; exact hcls c hcN), vis_cls]
           · unfold pushPath
             rw [hs3]
             exact (keep_setCr s _ _).trans (keep_setWd _ w _)
@@ -1347,9 +1450,12 @@ theorem iter_cont (g : Graph) (d : Nat → Nat) (hr : Ranked g d) (hsym : EdgeSy
           have pushParent : ∀ (hc : (match pickParent (vis g s) s next w with
                 | none => ((s, [], Flow.raise "RuntimeError") : Step)
                 | some (p, s') => (pushPath s' w p, [], Flow.cont)).2.2 = .cont),
-              Move g w s (match pickParent (vis g s) s next w with
+              (Move g w s (match pickParent (vis g s) s next w with
                 | none => ((s, [], Flow.raise "RuntimeError") : Step)
-                | some (p, s') => (pushPath s' w p, [], Flow.cont)).1 ∧
+                | some (p, s') => (pushPath s' w p, [], Flow.cont)).1 ∨
+               Jump g w s (match pickParent (vis g s) s next w with
+                | none => ((s, [], Flow.raise "RuntimeError") : Step)
+                | some (p, s') => (pushPath s' w p, [], Flow.cont)).1) ∧
               Keep s (match pickParent (vis g s) s next w with
                 | none => ((s, [], Flow.raise "RuntimeError") : Step)
                 | some (p, s') => (pushPath s' w p, [], Flow.cont)).1 := by
@@ -1361,13 +1467,16 @@ theorem iter_cont (g : Graph) (d : Nat → Nat) (hr : Ranked g d) (hsym : EdgeSy
               dsimp only
               obtain ⟨hcm, hnd, hs3⟩ := pickParent_spec _ s next w c s3 hpk
               have hw3 : w < s3.workers.length := by rw [hs3]; exact hw
-              refine ⟨.pushUp next c hl ?_ (vis_setup_sub g s next c hcm) ?_ ?_
-                (by rw [← vis_relevant g s]; exact (pickParent_rel _ s next w c s3 hpk).1), ?_⟩
+              refine ⟨Or.inl (.pushUp next c hl ?_ (vis_setup_sub g s next c hcm) ?_ ?_
+                (by rw [← vis_relevant g s]; exact (pickParent_rel _ s next w c s3 hpk).1) ?_), ?_⟩
               · rw [path_pushPath _ w c hw3, hs3]; rfl
               · rw [vis_cls, vis_cls] at hnd; exact hnd
               · intro k
                 unfold pushPath
                 rw [dropped_setWd, hs3, dropped_setCr_pickC]
+              · intro c'
+                unfold pushPath
+                rw [picks_setWd, hs3, picks_setCr_pC]
               · unfold pushPath
                 rw [hs3]
                 exact (keep_setCr s _ _).trans (keep_setWd _ w _)
@@ -1375,7 +1484,7 @@ theorem iter_cont (g : Graph) (d : Nat → Nat) (hr : Ranked g d) (hsym : EdgeSy
           · simp only [hup, if_true] at hc ⊢
             by_cases hsr : isSetupReady (vis g s) s next w = true
             · simp only [hsr, if_true] at hc ⊢
-              exact traverseNode_cont g d hr hsym s s w next _ .up hocc' hnx hw hl hlen rfl hcls (hun hlen)
+              exact traverseNode_cont g d hr hsym s s w next _ .up hocc' hnx hw hl hlen rfl hcls
                 (Or.inl ⟨rfl, by simpa using hup⟩) hc
             · simp only [hsr, Bool.false_eq_true, if_false] at hc ⊢
               exact pushParent hc
@@ -1384,12 +1493,25 @@ theorem iter_cont (g : Graph) (d : Nat → Nat) (hr : Ranked g d) (hsym : EdgeSy
             · simp only [hdn, if_true] at hc ⊢
               by_cases hsr : isSetupReady (vis g s) s next w = true
               · simp only [hsr, Bool.not_true, Bool.false_eq_true, if_false] at hc ⊢
-                exact traverseNode_cont g d hr hsym s s w next _ .down hocc' hnx hw hl hlen rfl hcls (hun hlen)
+                exact traverseNode_cont g d hr hsym s s w next _ .down hocc' hnx hw hl hlen rfl hcls
                   (Or.inr ⟨rfl, by simpa using hdn⟩) hc
               · simp only [hsr, Bool.not_false, if_true] at hc ⊢
                 exact pushParent hc
             · simp only [hdn, Bool.false_eq_true, if_false] at hc; cases hc
 
+
+/-- when nothing is unexplored the iteration is a move -/
+theorem iter_cont (g : Graph) (d : Nat → Nat) (hr : Ranked g d) (hsym : EdgeSym g) (s : State) (w : Nat)
+    (hnl : s.nodes.length = g.nodes.length) (hcls : ClsOK g s) (hwalk : Walk g d (s.wd w).path)
+    (hun : 2 ≤ (s.wd w).path.length → (s.wd w).unexplored = false)
+    (hc : (iter (vis g s) s w).2.2 = .cont) :
+    Move g w s (iter (vis g s) s w).1 ∧ Keep s (iter (vis g s) s w).1 := by
+  obtain ⟨h1, h2⟩ := iter_cont2 g d hr hsym s w hnl hcls hwalk hc
+  rcases h1 with h1 | h1
+  · exact ⟨h1, h2⟩
+  · have := hun h1.len
+    rw [h1.flag] at this
+    cases this
 
 theorem iter_rootReady (gv : Graph) (s : State) (w : Nat) (h : isCleanupReady gv s gv.root w = true) :
     (iter gv s w).2.2 ≠ .cont := by
@@ -2673,15 +2795,15 @@ theorem move_dry (g : Graph) (d : Nat → Nat) (hr : Ranked g d) (hsym : EdgeSym
         rw [List.getElem?_append_left (by omega)] at hx
         exact h.pos1 x hx
   cases m with
-  | pushUp last c hl hp hc hnd hD hrel =>
+  | pushUp last c hl hp hc hnd hD hrel _ =>
     refine push last c hl hp hrel hD (fun hl1 => ?_)
     rw [hlast1 last hl1 hl, hroot] at hc
     simp at hc
-  | pushDown last c hl hp hc hnd hmode hD hrel =>
+  | pushDown last c hl hp hc hnd hmode hD hrel _ =>
     refine push last c hl hp hrel hD (fun hl1 => ?_)
     rw [hlast1 last hl1 hl] at hc hnd
     exact ⟨hc, hnd⟩
-  | pop next hl hlen hp hD hk hnew =>
+  | pop next hl hlen hp hD hk hnew _ =>
     rw [hp]
     refine ⟨by rw [head?_dropLast' _ hlen]; exact h.head, ?_, ?_⟩
     · intro x hx
